@@ -34,6 +34,7 @@ RULE = ("rules = 1..3 detections (maps, lists of maps, keyword lists, plain valu
         "one-operand nodes, vanished conditions), compared with the model converter only"
         "; values incl. timestamp-part modifiers and non-ASCII base64 payloads; plus drift-only probes behind a drop pipeline (vanished operands)"
         "; a stream where the backend class converted another rule (negations, all string operators) before the probed one; configurations without case-sensitive templates")
+RULE += "; round 4: values with a literal (escaped) '?' next to wildcard characters"
 ASSUMPTIONS = [
     "atoms are independent boolean variables identified by (field, match kind, decoded value): equivalence is judged as boolean functions of these",
     "the emitted text is tokenised by harness/qsyntax.py for a fixed unambiguous template syntax (string/field escaping itself is C05's subject)",
@@ -48,7 +49,7 @@ ASSUMPTIONS = [
 ]
 
 FIELDS = ["f", "g", "h_1", "field name"]
-STRS = ["abc", "a*", "*b", "*c*", "a?c", "a\\*b", "x y", "A", "*a*b*", "**", "a\\\\", "*"]
+STRS = ["abc", "a*", "*b", "*c*", "a?c", "a\\*b", "x y", "A", "*a*b*", "**", "a\\\\", "*", "a\\?b", "\\?x*"]
 
 
 def gen_item(rnd):
